@@ -415,9 +415,16 @@ def av_text(av):
 class Defs:
     """top-level item definitions of one tree: the root and every referenced definition get a name"""
 
-    def __init__(self):
+    def __init__(self, pad=0):
         self.out = []
         self.n = 0
+        self.pad = pad     # 0: <typeRef>number</typeRef>; 1: blanks around the name; 2: the name on a line of its own (pretty-printed XML)
+
+    def tref(self, name, builtin=False):
+        # only the names of built-in types are padded: the code under test trims those itself (`type_ref_to_feel_type`); whether a padded
+        # reference to another item definition names that definition is not said anywhere (the unchanged tree does not find it)
+        pad = self.pad if builtin else 0
+        return "<typeRef>%s</typeRef>" % ({0: "%s", 1: " %s  ", 2: "\n      %s\n    "}[pad] % name)
 
     def fresh(self):
         self.n += 1
@@ -428,11 +435,11 @@ class Defs:
         attrs = ' name="%s"%s' % (X.esc(name), ' isCollection="true"' if n["coll"] else "")
         inner = ""
         if n["k"] == "simple":
-            inner += "<typeRef>%s</typeRef>" % n["type"]
+            inner += self.tref(n["type"], builtin=True)
         elif n["k"] == "ref":
             target = self.fresh()
             self.define(n["to"], target)
-            inner += "<typeRef>%s</typeRef>" % target
+            inner += self.tref(target)
         if n.get("av"):
             inner += "<allowedValues><text>%s</text></allowedValues>" % X.esc(av_text(n["av"]))
         if n["k"] == "comp":
@@ -466,12 +473,12 @@ def multi_keys(v):
     return keys
 
 
-def model_xml(tree, outputs, direct=True, multi=None):
+def model_xml(tree, outputs, direct=True, multi=None, pad=0):
     """One model per tree:
       inputData `In Val` : T  -> decision `Echo` = In Val                       (what reaches the logic)
       BKM `Id`(p) : T = p                                                       (typed BKM result, value supplied as p)
       per output value i: decision `Out i` : T = literal; decision `Raw i` (untyped) = literal; service `Svc i` : T -> Raw i"""
-    defs = Defs()
+    defs = Defs(pad)
     tr = type_ref_of(tree, defs, direct_ok=direct)
     els = []
     els.append('<inputData name="%s" id="_in"><variable name="%s" typeRef="%s"/></inputData>' % (INPUT_NAME, INPUT_NAME, tr))
